@@ -142,8 +142,40 @@ def multi_file(rng: random.Random, rich: bool = True) -> dict:
     return {"files": files, "main": "main.exps", "lookup": [], "meta": {"mode": mode, "n": n, "edges": sorted(edges), "fileof": fileof}}
 
 
+def import_graphs() -> list[dict]:
+    """fixed import DAGs over files, each file defining one macro that calls the macros of the files it imports: diamonds, a shared file that has
+    imports of its own reached along two routes, a chain with a short cut, the same file listed twice, sub-directories"""
+    shapes = {
+        "diamond": {"main": ["a", "b"], "a": ["x"], "b": ["x"], "x": []},
+        "shared-with-imports": {"main": ["a", "b"], "b": ["a"], "a": ["x"], "x": []},
+        "chain-with-shortcut": {"main": ["a", "c"], "a": ["b"], "b": ["c"], "c": []},
+        "wide": {"main": ["a", "b", "c"], "a": ["c"], "b": ["c", "a"], "c": []},
+        "deep-diamond": {"main": ["a", "b"], "a": ["m"], "b": ["m"], "m": ["x", "y"], "x": ["z"], "y": ["z"], "z": []},
+        "listed-twice": {"main": ["a", "a"], "a": []},
+    }
+    dirs = [{}, {"a": "lib/", "b": "lib/", "x": "lib/deep/", "c": "other/", "m": "lib/", "y": "lib/deep/", "z": ""}]
+    out = []
+    for name, g in shapes.items():
+        for dmap in dirs:
+            path = {f: ("main.exps" if f == "main" else dmap.get(f, "") + f + ".exps") for f in g}
+            files = {}
+            for f, imps in g.items():
+                rel = lambda frm, to: (lambda r: r if r.startswith(".") else "./" + r)(os.path.relpath(path[to], os.path.dirname(path[frm]) or "."))
+                text = "".join(f'import "{rel(f, t)}";\n' for t in imps)
+                if f == "main":
+                    calls = " ".join(f"~m_{t}({k + 1});" for k, t in enumerate(sorted(set(g) - {"main"})))
+                    text += f"def 0 {{ start(); {calls} end; }}\n"
+                else:
+                    inner = " ".join(f"~m_{t}($p);" for t in sorted(set(imps)))
+                    text += f"macro m_{f}($p) {{ in_{f}($p); if ($p == 1) {{ return; }} {inner} out_{f}(); }}\n"
+                files[path[f]] = text
+            out.append({"files": files, "main": "main.exps", "lookup": [], "meta": {"mode": "import-graph", "shape": name}})
+    return out
+
+
 def family(rng: random.Random, thorough: bool) -> list[dict]:
     out = order_family(4 if not thorough else 5, 700 if not thorough else 8000, rng)
+    out += import_graphs()
     for _ in range(400 if not thorough else 4000):
         out.append(multi_file(rng))
     for _ in range(200 if not thorough else 2000):
